@@ -127,7 +127,7 @@ PROPS = {
                       "consequences proved about the greedy partition: no file closed early (> N), a closed file exceeds N only by its last record, no record "
                       "appended to a file already above N, uniqueness; accounted size = real size incl. buffer. Differential check incl. append-start and async mode; "
                       "independent greedy oracle on the real files.",
-        "level_note": "Theorems cover single runs from an empty directory (append-start accounting is validated by the correspondence check, and proved in C06's restart lemmas where available).",
+        "level_note": "Single runs: the partition theorems above. Across restarts (Props/C08Restart, all four namings, append on/off per run, no cleanup): in every reachable state the counter equals the length of the file the writer writes to, buffer included (size_is_file_length); a run that appends starts its counter at the size of the file it finds, a run that does not append at 0 (restart_counter); at every write the writer rotates first iff that file already holds more than N bytes, whichever run wrote them (size_rule_multi_run; size_rule_files in the reader's view for the rCURRENT namings). For the non-rotating writer the counter is not maintained (plain_counter_is_not_file_length) and never read.",
         "correspondence": "Flw model vs real FileLogWriter (PARTS = sizes in reading order)",
         "rule": "size-only criteria, N from 0, boundary lengths, LF records, all namings, modes direct/buffered/bufflush/async, append restarts; non-trivial = rotation or restart happened",
         "trusted": ["OS file system semantics", "std::io::BufWriter"],
@@ -137,7 +137,7 @@ PROPS = {
                       "are in strictly later periods (no rotation inside a period), created_at = instant of the first record of the current file (age_rule_history, all "
                       "namings/capacities via refines_all); Age.trunc on the packed civil stamp is exactly the year/month/day[/hour/minute/second] comparison of the code "
                       "(trunc_iff_fields); age-or-size = disjunction. Differential check under a virtual clock with second/minute/hour/day/month jumps, leap day, year end.",
-        "level_note": "Trusted: chrono's civil-time arithmetic (the harness converts stamps); worker processes run in UTC and in fixed-offset zones +05:30, -03:30, +05:45, +08:45, -09:30, +14, -12 (the virtual clock is local civil time, the model is zone-independent); non-monotone local time at DST fall-back is outside "
+        "level_note": "Across restarts (Props/C09Restart, all four namings, no cleanup): the writer's start time always equals the recorded creation time of the file it writes to (created_is_birth_time); an appending restart rotates at its first write iff the file it found was started in another (for a monotone clock: earlier) period, and otherwise continues it; a non-appending restart starts a file whose start time is the time of its first write (appending_restart_age, nonappending_restart_created, age_rule_multi_run). Trusted: chrono's civil-time arithmetic (the harness converts stamps); worker processes run in UTC and in fixed-offset zones +05:30, -03:30, +05:45, +08:45, -09:30, +14, -12 (the virtual clock is local civil time, the model is zone-independent); non-monotone local time at DST fall-back is outside "
                       "(stated assumption); file birth times are replaced by the creation-time table hook under virtual time.",
         "correspondence": "Flw model vs real FileLogWriter under the virtual clock hook",
         "rule": "age-only and age-or-size(inactive) criteria x 4 ages x namings x caps, append restarts in the same/a later period; non-trivial = rotation or restart happened",
